@@ -18,6 +18,7 @@ from __future__ import annotations
 
 import binascii
 import logging
+import os
 import random
 import struct
 
@@ -1059,6 +1060,12 @@ def run_case(ck, s, drv, case, live_cache=None, strict_from=None):
             pydev.fuses.get(op["index"] & 0xFFFFFF, 0) & op["value"] == op["value"]
         viol = oracle_op(s, case, op, res, st, tx, pre_mem, pre_sb, pydev, evs, strict, nofault, cfg)
         if nofault:
+            if pydev.mp < 32 and pydev.max_data_packet > pydev.mp:
+                # after a failed size query McuBoot sent its 32-byte fallback packets to a stub device with a smaller limit: from here on the
+                # link is out of step by construction of the stub (see the packet-size oracle), nothing to demand
+                for what, obs in viol:
+                    s.expect(False, {"case": case, "op_index": i}, what, obs, None)
+                continue
             exp = expected_success(op, evs, cfg, verify_ok)
             if op["op"] == "open":
                 # open() does not touch status_code; with >= 50 dummy bytes per ping the link is left out of step (correspondence only)
@@ -1103,7 +1110,8 @@ def run_case(ck, s, drv, case, live_cache=None, strict_from=None):
                     dev_st = None  # OTP_VERIFY_FAIL is the host's own verdict
                 if dev_st is not None and res.startswith(("ok:", "E:cmd:")) and shown != dev_st:
                     viol.append(("status_code / McuBootCommandError value is not the status the device sent", {"host": shown, "device": dev_st}))
-        if (not nofault) and i == fault_op and fault["kind"] in ("nak", "abort") and not hid and is_success(res, st) and op["op"] != "open":
+        if (not nofault) and i == fault_op and fault["kind"] in ("nak", "abort") and not hid and is_success(res, st) and op["op"] != "open" \
+                and not (op["op"] == "load_image" and op["n"] == 0):
             viol.append(("the device answered a frame of this operation with NAK/ABORT (it did not accept it) but the operation reports success",
                          {"fault": fault["kind"], "result": res[:40]}))
         for what, obs in viol:
@@ -1301,7 +1309,7 @@ def fault_class(fault, strict):
 
 
 def run(ck):
-    ck.lean_obligations(generated=["MbootConsts", "SdpConsts"])
+    ck.lean_obligations(generated=["MbootConsts", "SdpConsts", "MbootProps"])
     drv = ck.driver()
     setup_runtime()
     check_generated(ck)
@@ -1365,6 +1373,7 @@ def run(ck):
         dev["pad"] = rng.choice([0, dev["mp"] + 4]) if cfg["tr"] == "hid" else 0
         dev["mem_size"] = rng.choice([64, 200])
         dev["dummy"] = rng.choice([0, 0, 1, 2]) if cfg["tr"] == "serial" else 0
+        dev["abort"] = None  # (a replayed transcript cannot follow a device abort that a changed packetisation would move)
         ops = gen_ops(rng, cfg, dev, nmax=3)
         for o in ops:
             if "n" in o and o["n"] > 2 * dev["mp"] + 1 and o["n"] > 20:
@@ -1391,8 +1400,12 @@ def run(ck):
 
     # ---- stream 3: crafted truncations in 'partial read' mode whose shortened payload has a colliding CRC
     crafted_stream(ck, drv)
-    # ---- SDP (thin layer)
+    # ---- SDP
     sdp_streams(ck, drv)
+    # ---- property value decoding
+    property_stream(ck, drv)
+    # ---- blhost CLI glue
+    cli_stream(ck, drv)
 
 
 def z2_inverse_table():
@@ -1447,6 +1460,224 @@ def crafted_stream(ck, drv):
                 got = bytes.fromhex(res[5:]) if res[5:] != "-" else b""
                 s.expect(got == dev_mem(dev)[:n], {"case": case, "chunk": ci, "keep": k},
                          "a frame cut short (colliding CRC) is accepted: read_memory reports success with partial data", res[:60])
+
+
+# ----------------------------------------------------------------------------------------------- blhost CLI glue
+def cli_stream(ck, drv):
+    """blhost sub-commands (click) on the stub interface: argument parsing, McuBoot context manager (open = ping on serial), display_output:
+    printed status / response words / exit status / output file must mirror the model's operation result; bytes written must be the same."""
+    import json as _json
+    import re
+    import tempfile
+    from click.testing import CliRunner
+    from spsdk.apps import blhost
+    from spsdk.apps.utils.utils import SPSDKAppError
+    from spsdk.mboot.protocol.bulk_protocol import MbootBulkProtocol
+    from spsdk.mboot.protocol.serial_protocol import MbootSerialProtocol
+    global _STUBS
+    if _STUBS is None:
+        _STUBS = make_stub_classes()
+    rng = ck.rng
+    s = ck.stream("blhost_cli", "blhost get-property / set-property / read-memory (file) / write-memory (file and {{hex}}) / fill-memory / flash-erase-region / "
+                  "flash-erase-all / execute / call / efuse-read-once / efuse-program-once [-v] / receive-sb-file / load-image through click's CliRunner on the stub "
+                  "interface (serial incl. the ping of McuBoot.__enter__, and HID), plain and --json output; non-trivial = distinct case")
+    runner = CliRunner()
+    tmp = tempfile.mkdtemp(prefix="c10cli", dir=os.environ.get("VERIF_SCRATCH"))
+    for ci in range(ck.budget(150, 1500)):
+        cfg = {"tr": rng.choice(["serial", "hid"]), "usb": False, "partial": False, "ce": False}
+        hid = cfg["tr"] == "hid"
+        dev = gen_dev(rng, cfg)
+        dev["dummy"] = rng.choice([0, 0, 2]) if not hid else 0
+        dev["abort"] = None
+        if rng.random() < 0.25:
+            dev["faults"] = [(rng.randrange(0, 3), rng.random() < 0.5, rng.choice(STATUSES))]
+        size, mp = dev["mem_size"], dev["mp"]
+        k = rng.choice(["get-property", "get-property", "set-property", "read-memory", "read-memory", "write-memory", "write-memory-hex", "fill-memory",
+                        "flash-erase-region", "flash-erase-all", "execute", "call", "efuse-read-once", "efuse-program-once", "receive-sb-file", "load-image"])
+        n = gen_len(rng, mp, min(size, 1200))
+        a = rng.choice([0, size - n, rng.randrange(0, size - n + 1), size - n + 2])
+        seed = rng.randrange(1 << 30)
+        data = gen_bytes(seed, n)
+        fn = os.path.join(tmp, f"f{ci}.bin")
+        use_json = rng.random() < 0.5
+        if k == "get-property":
+            tag, idx = rng.choice([1, 2, 10, 11, 20, 77]), rng.choice([0, 1])
+            args, op, cmd = [str(tag), str(idx)], {"op": "get_property", "tag": tag, "index": idx}, blhost.get_property
+        elif k == "set-property":
+            tag, v = rng.choice([10, 20, 1, 77]), rng.getrandbits(32)
+            args, op, cmd = [str(tag), hex(v)], {"op": "set_property", "tag": tag, "value": v}, blhost.set_property
+        elif k == "read-memory":
+            args, op, cmd = [hex(a), str(n), fn], {"op": "read_memory", "addr": a, "n": n, "mem_id": 0, "fast": False}, blhost.read_memory
+        elif k in ("write-memory", "write-memory-hex"):
+            if k == "write-memory":
+                open(fn, "wb").write(data)
+                src = fn
+            else:
+                data = data[:64]
+                n = len(data)
+                src = "{{" + data.hex() + "}}"
+                if n == 0:
+                    continue
+            seed2 = None
+            args, cmd = [str(a), src], blhost.write_memory
+            op = {"op": "write_memory", "addr": a, "n": n, "mem_id": 0, "seed": seed}
+        elif k == "fill-memory":
+            pat = rng.getrandbits(32)
+            args, op, cmd = [str(a), str(n), hex(pat)], {"op": "fill_memory", "addr": a, "n": n, "pattern": pat}, blhost.fill_memory
+        elif k == "flash-erase-region":
+            args, op, cmd = [str(a), str(n)], {"op": "flash_erase_region", "addr": a, "n": n, "mem_id": 0}, blhost.flash_erase_region
+        elif k == "flash-erase-all":
+            args, op, cmd = [], {"op": "flash_erase_all", "mem_id": 0}, blhost.flash_erase_all
+        elif k == "execute":
+            x, y, z = rng.getrandbits(32), rng.getrandbits(32), rng.getrandbits(32)
+            args, op, cmd = [str(x), str(y), str(z)], {"op": "execute", "addr": x, "arg": y, "sp": z}, blhost.execute
+        elif k == "call":
+            x, y = rng.getrandbits(32), rng.getrandbits(32)
+            args, op, cmd = [str(x), str(y)], {"op": "call", "addr": x, "arg": y}, blhost.call
+        elif k == "efuse-read-once":
+            i = rng.choice([3, 4, 9, 30])
+            args, op, cmd = [str(i)], {"op": "efuse_read_once", "index": i}, blhost.efuse_read_once
+        elif k == "efuse-program-once":
+            i, v, ver, lock = rng.choice([3, 4, 9]), rng.choice([1, 0xFF, 0xFF00, rng.getrandbits(32)]), rng.random() < 0.6, rng.random() < 0.3
+            args = [str(i), f"{v:x}"] + (["lock"] if lock else []) + (["-v"] if ver else [])
+            op, cmd = {"op": "efuse_program_once", "index": i | (1 << 24 if lock else 0), "value": v, "verify": ver}, blhost.efuse_program_once
+        elif k == "receive-sb-file":
+            open(fn, "wb").write(data)
+            args, op, cmd = [fn], {"op": "receive_sb_file", "n": n, "seed": seed, "check": False}, blhost.receive_sb_file
+        else:
+            open(fn, "wb").write(data)
+            args, op, cmd = [fn], {"op": "load_image", "n": n, "seed": seed}, blhost.load_image
+        if "seed" in op:
+            op["seed"] = seed
+        ops = [{"op": "open"}, op]
+        live, _state = model_live(drv, cfg, dev, ops)
+        transcript = [c for (_r, _st, _tx, rel, _rd) in live for c in rel]
+        mres, mst, _mtx, _rel, _mrd = live[1]
+        opened = live[0][0] == "ok:unit"
+        stub = _STUBS[0](transcript, hid, False)
+        proto = _proto_class(MbootBulkProtocol if hid else MbootSerialProtocol)(stub)
+        res = runner.invoke(cmd, args, obj={"interface": proto, "use_json": use_json, "suppress_progress_bar": True, "silent": False})
+        case = {"cfg": cfg, "dev": dev, "cli": k, "args": [x if len(x) < 80 else x[:40] + "..." for x in args], "op": op, "json": use_json}
+        s.note(case, cls=f"{k}/{cfg['tr']}/json={int(use_json)}")
+        out = res.output or ""
+        exc = res.exception
+        if not opened:
+            s.expect(exc is not None and not isinstance(exc, SystemExit), case, "blhost does not fail although the interface could not be opened", repr(exc)[:80])
+            continue
+        # status / words as printed
+        status = words = None
+        if use_json:
+            try:
+                j = _json.loads(out[out.index("{"):out.rindex("}") + 1])
+                status, words = j["status"]["value"], [int(x) if not isinstance(x, bool) else int(x) for x in j["response"]]
+            except (ValueError, KeyError, TypeError):
+                pass
+        else:
+            m = re.search(r"Response status = (\d+)", out)
+            status = int(m.group(1)) if m else None
+            words = [int(x) for x in re.findall(r"Response word \d+ = (\w+) \(", out.replace("True", "1").replace("False", "0"))]
+        real = f"status={status} exit={'0' if exc is None else 'app' if isinstance(exc, SPSDKAppError) else type(exc).__name__} tx=" + ",".join(hx(w) for w in stub.tx)
+        model_exit = "0" if mst == 0 else "app"
+        model = f"status={mst} exit={model_exit} tx=" + ",".join(hx(w) for w in (live[0][2] + live[1][2]))
+        if mres.startswith("E:"):
+            # the model operation raised (e.g. E:other for an unencodable value): only require that blhost fails too
+            s.expect(exc is not None, case, "blhost succeeds although the operation raises", out[-120:])
+            continue
+        s.compare(case, real, model, "blhost printed status / exit status / bytes written differ from the model's operation")
+        # response words and files
+        if k == "get-property":
+            want = [int(x) for x in mres[5:].split(";")] if mres.startswith("ok:i:") and mres[5:] != "-" else []
+            s.expect((words or [])[:len(want)] == want if want else True, case, "blhost get-property does not print the device's property words", words, want)
+        elif k == "read-memory":
+            got = open(fn, "rb").read() if os.path.exists(fn) else b""
+            want = bytes.fromhex(mres[5:]) if mres.startswith("ok:b:") and mres[5:] != "-" else b""
+            s.expect(got == want and (words or [None])[0] == len(want), case, "blhost read-memory: file / printed length are not the bytes the operation returned",
+                     {"file": len(got), "words": words}, len(want))
+            if status == 0:
+                s.expect(len(got) == n and got == dev_mem(dev)[a:a + n], case, "blhost read-memory exits with status 0 but the file is not exactly the device's bytes", len(got), n)
+        elif k in ("write-memory", "write-memory-hex"):
+            s.expect((words == [n]) == (mres == "ok:true") or (mres != "ok:true" and not words), case, "blhost write-memory response word is not the byte count on success only", words, n)
+        elif k == "efuse-read-once":
+            want = [4, int(mres[5:])] if mres.startswith("ok:n:") else []
+            s.expect((words or []) == want, case, "blhost efuse-read-once does not print the fuse word", words, want)
+        elif k == "efuse-program-once":
+            s.expect((words or [None])[0] == (1 if mres == "ok:true" else 0), case, "blhost efuse-program-once response word does not mirror the result", words, mres)
+
+
+# ----------------------------------------------------------------------------------------------- property value decoding
+def prop_canon(tag, obj):
+    from spsdk.mboot import properties as P
+    if isinstance(obj, P.VersionValue):
+        v = obj.value
+        return f"ver:{ord(v.mark) if v.mark is not None else '-'}:{v.major}:{v.minor}:{v.fixation}:{obj.to_int()}"
+    if isinstance(obj, P.BoolValue):
+        return f"bool:{obj.value}:{'true' if bool(obj) else 'false'}"
+    if isinstance(obj, P.ReservedRegionsValue):
+        return "regions:" + (",".join(f"{r.start}-{r.end}" for r in obj.regions) or "-")
+    if isinstance(obj, P.DeviceUidValue):
+        return "uid:" + hx(obj.value)
+    if isinstance(obj, P.ExternalMemoryAttributesValue):
+        o = lambda x: "-" if x is None else str(x)  # noqa: E731
+        return f"ext:{obj.value}:{o(obj.start_address)}:{o(obj.total_size)}:{o(obj.page_size)}:{o(obj.sector_size)}:{o(obj.block_size)}"
+    if isinstance(obj, P.FuseLockedStatus):
+        return "fuses:" + (",".join(f"{f.index}={int(f.locked)}" for f in obj.get_fuses()) or "-")
+    if isinstance(obj, P.IntListValue):
+        return "words:" + (";".join(map(str, obj.value)) or "-")
+    if isinstance(obj, P.AvailableCommandsValue):
+        return f"word:{obj.value}|tags:" + (";".join(map(str, obj.tags)) or "-")
+    if isinstance(obj, P.AvailablePeripheralsValue):
+        return f"word:{obj.value}|per:" + (";".join(str(t.tag) for t in P.PeripheryTag if t.tag & obj.value) or "-")
+    if isinstance(obj, P.IrqNotifierPinValue):
+        return f"word:{obj.value}|irq:{obj.pin}:{obj.port}:{'true' if obj.enabled else 'false'}"
+    if isinstance(obj, (P.IntValue, P.EnumValue)):
+        return f"word:{obj.value}"
+    return "?" + type(obj).__name__
+
+
+def property_stream(ck, drv):
+    """parse_property_value for every property tag x raw word lists of every length 0..7 with boundary words."""
+    from spsdk.mboot.properties import PropertyTag, Version, parse_property_value
+    rng = ck.rng
+    s = ck.stream("properties", "parse_property_value(tag, raw_values) for every PropertyTag (and unknown tags) x raw word lists of length 0..7 built from "
+                  "{0,1,2^k-1,2^k,flag masks,version words with letter / non-letter / zero mark,random}: decoded attributes (version fields and to_int, "
+                  "regions, command tags, peripherals, irq pin/port/enable, external memory fields, UID bytes, fuse lock list, bool truth) compared with "
+                  "the model; Version ordering on pairs; non-trivial = distinct (tag, raw)")
+    words = [0, 1, 2, 3, 7, 0x1F, 0x20, 0xFF, 0x100, 0xFFFF, 0x10000, 0x4B030100, 0x5A020000, 0x00020100, 0x20010203, 0x5B010203, 0x40010203,
+             0x5AA55AA5, 0xC33CC33C, 0x80000105, 0xFFFFFFFF]
+    tags = sorted({t.tag for t in PropertyTag} | {0x23, 0x40, 0xFE})
+    reqs = []
+    for tag in tags:
+        for n in range(0, 8):
+            for _ in range(ck.budget(3, 12)):
+                raw = [rng.choice(words + [rng.getrandbits(32)]) for _ in range(n)]
+                if tag == 0x19 and raw:
+                    raw[0] = rng.choice([0, 1, 3, 7, 0x1F, 0x15, 0x1E, rng.getrandbits(5)])
+                try:
+                    real = prop_canon(tag, parse_property_value(tag, list(raw), ext_mem_id=0))
+                except Exception as exc:  # noqa: BLE001
+                    real = classify_exc(exc)
+                s.note((tag, tuple(raw)), cls=real.split(":")[0])
+                reqs.append(((tag, raw), f"propval {tag} " + (";".join(map(str, raw)) or "-"), real))
+                # oracle: the value is reported as the device sent it
+                if real.startswith("ver:") and raw:
+                    m = (raw[0] >> 24) & 0xFF
+                    if 64 < m < 91 or m == 0:
+                        s.expect(real.endswith(f":{raw[0]}"), (tag, raw), "VersionValue.to_int() is not the word the device sent", real)
+                if real.startswith("uid:"):
+                    b = bytes.fromhex(real[4:]) if real[4:] != "-" else b""
+                    s.expect(list(struct.unpack(f"<{len(raw)}I", b)) == raw, (tag, raw), "DeviceUidValue bytes are not the device's words (little endian)", real)
+                if real.startswith("regions:"):
+                    want = [(raw[i], raw[i + 1]) for i in range(0, len(raw), 2) if raw[i + 1] != 0]
+                    s.expect(real == "regions:" + (",".join(f"{a}-{b}" for a, b in want) or "-"), (tag, raw), "reserved regions are not the device's (start, end) pairs", real)
+    for _ in range(ck.budget(300, 3000)):
+        a, b = rng.choice(words + [rng.getrandbits(32)]), rng.choice(words + [rng.getrandbits(32)])
+        real = "true" if Version(a) <= Version(b) else "false"
+        s.note(("verle", a, b))
+        reqs.append((("verle", a, b), f"verle {a} {b}", real))
+        s.expect((real == "true") == ((a & 0xFFFFFF) <= (b & 0xFFFFFF)), ("verle", a, b), "Version ordering is not the ordering of (major, minor, fixation)", real)
+    if drv is not None:
+        for (inp, _l, real), ans in zip(reqs, drv.batch([q[1] for q in reqs])):
+            s.compare(inp, real, ans)
 
 
 # ----------------------------------------------------------------------------------------------- SDP (thin layer)
@@ -1870,7 +2101,7 @@ def sdp_streams(ck, drv):
 
 def replay(ck, data):
     """Re-run the recorded failing cases (self-contained inputs) against the current tree."""
-    ck.lean_obligations(generated=["MbootConsts", "SdpConsts"])
+    ck.lean_obligations(generated=["MbootConsts", "SdpConsts", "MbootProps"])
     drv = ck.driver()
     setup_runtime()
     s = ck.stream("replay", "cases of the replay file")
